@@ -19,7 +19,7 @@ macro_rules! marker_types {
         }
     };
 }
-marker_types!(T1, T2, T3, T4, T5, T6, T7, T8);
+marker_types!(T1, T2, T3, T4, T5, T6, T7, T8, T9, T10, T11, T12, T13, T14);
 
 #[derive(Clone, Debug)]
 pub struct Node {
@@ -122,7 +122,7 @@ pub fn apply_calls(
                         b.add_contains_edges(arr).is_ok()
                     }
                 } else {
-                    batch!(b, kind, pairs, 1, 2, 3, 4, 5, 6)
+                    batch!(b, kind, pairs, 1, 2, 3, 4, 5, 6, 7, 8, 9, 10, 11, 12)
                 };
                 if let Some(w) = w {
                     w.borrow_mut().ev(json!({"ev":"add_edges","kind":kind,"pairs":pairs,
